@@ -25,3 +25,11 @@ unsigned long strtoul(const char *s, char **end, int base) {
 }
 long strtol(const char *s, char **end, int base) { return (long)strtoul(s, end, base); }
 int atoi(const char *s) { return (int)strtoul(s, 0, 10); }
+/* time(): an arbitrary non-decreasing instant (seconds), below 2^40; the values handed out are logged for the harness */
+static long lc_now = 0; static long lc_log[8]; static unsigned lc_calls = 0;
+long vf_time_seen(unsigned k) { return k < lc_calls && k < 8 ? lc_log[k] : -1; }
+long time(long *t) {
+  unsigned long d = vf_nondet_u64(); vf_assume(d < (1UL << 40)); vf_assume((long)d >= lc_now);
+  lc_now = (long)d; if (lc_calls < 8) lc_log[lc_calls] = lc_now; ++lc_calls;
+  if (t) *t = lc_now; return lc_now;
+}
